@@ -482,4 +482,4 @@ def run(ctx, out, replay=None):
     for _ in range(npoly):
         cases.append(gen_poly_case(ctx.rng))
     fr.run_cases(ctx, out, cases, run_impl, to_coq, oracle, failure_key, HEADER,
-                 dist_key=dist_key, nontrivial=nontrivial, shard=4000, shrink=shrink)
+                 dist_key=dist_key, nontrivial=nontrivial, shard=1000, shrink=shrink)
